@@ -249,6 +249,30 @@ def direct_run(ctx, rec, part, cases, judge, known_filter=None, stop_at_first=Tr
     rec.parts[part] = {"enumerated": n, "wall_s": round(time.time() - t0, 2)}
 
 
+def child_judge(pid, cases, py_flags=(), env_extra=None):
+    """judge `cases` of property `pid` in a fresh child interpreter started with `py_flags` / extra environment;
+    -> list of message lists (one per case)"""
+    import shutil
+    import tempfile
+
+    tmp = tempfile.mkdtemp(prefix="pyab_child_")
+    try:
+        path = os.path.join(tmp, "cases.json")
+        with open(path, "w", encoding="ascii") as f:
+            json.dump(cases, f, ensure_ascii=True, default=repr)
+        env = dict(os.environ)
+        env["PYTHONPATH"] = os.pathsep.join([os.environ.get("PYAB_SRC", "/repo/src"), VERIF])
+        env["PYTHONDONTWRITEBYTECODE"] = "1"
+        env.update(env_extra or {})
+        p = subprocess.run([sys.executable, "-B", *py_flags, os.path.join(HERE, "child_judge.py"), pid, path], env=env,
+                           stdout=subprocess.PIPE, stderr=subprocess.PIPE, text=True)
+        if p.returncode != 0:
+            raise HarnessError("child interpreter %r failed: %s" % (py_flags, p.stderr[-600:]))
+        return json.loads(p.stdout)
+    finally:
+        shutil.rmtree(tmp, ignore_errors=True)
+
+
 # ---------------------------------------------------------------------------
 def _load(pid):
     return importlib.import_module("pyabverif.props." + pid.lower())
